@@ -39,7 +39,7 @@ func boundaryInts() []*big.Int {
 }
 
 var specialFloats = []uint64{0, 0x8000000000000000, 0x3ff0000000000000, 0xbff0000000000000, 0x3ff8000000000000,
-	0x7ff0000000000000, 0xfff0000000000000, 0x7ff8000000000001, 0x0000000000000001, 0x7fefffffffffffff,
+	0x7ff0000000000000, 0xfff0000000000000, 0x7ff8000000000001, 0xfff8000000000000 /* another NaN */, 0x7ff0000000000001, 0x0000000000000001, 0x7fefffffffffffff,
 	0x4070000000000000 /* 256.0 */, 0x40f0000000000000 /* 65536.0 */, 0x43e0000000000000 /* 2^63 */}
 
 func vi(i int64) val       { return val{k: 'i', i: big.NewInt(i)} }
